@@ -28,6 +28,13 @@ fn hplace_for(rot: u64) -> Place {
 
 /// Apply the property's per-call oracle. Returns true if a violation was recorded.
 pub fn unit_call(w: &mut W, call: Call, data: &[u8], place: Place) -> bool {
+    if w.tier == Tier::Tiny {
+        // Miri-sized budget: at most 3 calls per generated buffer
+        w.tiny_calls += 1;
+        if w.tiny_calls > 3 {
+            return false;
+        }
+    }
     let before = w.st.violations.len() as u64 + w.st.counters.get("violations_dropped_over_cap").copied().unwrap_or(0);
     let prop = w.prop.clone();
     match prop.as_str() {
@@ -125,7 +132,15 @@ pub fn unit_call(w: &mut W, call: Call, data: &[u8], place: Place) -> bool {
                 return true;
             }
             let b_owned = b.to_vec();
-            let ample = Call { cap: ample_cap(data).max(call.cap + 2), ..call };
+            // the ample-capacity reference run uses the initialised-array counterpart of the entry
+            // point, whose array can be inspected after Partial/Err also under Miri
+            let ample_entry = match call.entry {
+                Entry::R3 => Entry::R1,
+                Entry::R4 => Entry::R2,
+                Entry::S4 => Entry::S2,
+                e => e,
+            };
+            let ample = Call { cap: ample_cap(data).max(call.cap + 2), entry: ample_entry, ..call };
             let (a, b2) = w.obs(ample, &b_owned, place);
             if let Some(f) = orc::c17(b2, &o, &a) {
                 w.viol(f.rule, f.detail, call, place, data);
@@ -486,6 +501,7 @@ fn J_note(call: Call, data: &[u8], note: &str) -> crate::report::J {
 
 /// Choose and run the calls made for one generated buffer.
 pub fn unit_buffer(w: &mut W, kind: Kind, data: &[u8], tag: Tag) {
+    w.tiny_calls = 0;
     let rot = w.rot(data);
     let k = lf_count(data);
     let ample = ample_cap(data);
@@ -501,11 +517,15 @@ pub fn unit_buffer(w: &mut W, kind: Kind, data: &[u8], tag: Tag) {
             for &e in kind.entries() {
                 for (bi, &bk) in bks.iter().enumerate() {
                     let cfgs = [0u8, kind.relevant_cfg(), pick_cfg(rot >> 5)];
+                    let tiny = w.tier == Tier::Tiny;
                     for (ci, &cfg) in cfgs.iter().enumerate() {
                         if !e.takes_cfg() && ci > 0 {
                             continue;
                         }
-                        for j in 0..2 {
+                        if tiny && e.takes_cfg() && ci != (rot % 3) as usize {
+                            continue;
+                        }
+                        for j in 0..(if tiny { 1 } else { 2 }) {
                             let cap = caps[((rot >> 11) as usize + j * 3 + ci + bi) % caps.len()];
                             let call = Call { entry: e, cfg, cap, hplace, backend: bk };
                             let pl = if j == 0 { Place::End } else { place };
@@ -610,7 +630,7 @@ pub fn unit_buffer(w: &mut W, kind: Kind, data: &[u8], tag: Tag) {
         }
         "C17" => {
             let es = kind.entries();
-            let maxcap = (k + 2).min(if w.tier >= Tier::Thorough { 80 } else { 12 });
+            let maxcap = (k + 2).min(if w.tier >= Tier::Thorough { 80 } else if w.tier == Tier::Tiny { 3 } else { 12 });
             for cap in 0..=maxcap {
                 let e = es[((rot >> 3) as usize + cap) % es.len()];
                 let cfg = if e.takes_cfg() { pick_cfg((rot >> 7) + cap as u64) } else { 0 };
